@@ -225,4 +225,12 @@ def extra_units():
     import copy
     u = copy.copy(c13.dove)
     u.prop = PROP
-    return [u]
+    out = [u]
+    # "upper case exactly when the consensus shows the conversion": the consensus TAPS reads is get_consensus(with_probs_and_obs)
+    # and the per-read calls come from read_to_consensus_dict (C13's bounded units, re-verified under this property)
+    for v in c13.UNITS:
+        if getattr(v, 'name', '').endswith('with_probs_and_obs]') or getattr(v, 'name', '').startswith('read_to_consensus_dict'):
+            w = copy.copy(v)
+            w.prop = PROP
+            out.append(w)
+    return out
